@@ -44,6 +44,8 @@ type kase struct {
 	Keys   bool   `json:"with_keys"`
 	First  []byte `json:"-"`
 	Ops    []op   `json:"-"`
+	// Budget > 0 replaces the default bound on what the Conn may retain after the calls (cases that end with everything delivered)
+	Budget int `json:"retained_budget,omitempty"`
 }
 
 type result struct {
@@ -210,6 +212,20 @@ func generate(thorough bool, emit func(kase)) {
 		bigPlain.Exts = []tlsref.Ext{tlsref.SNI(pubName), tlsref.SupportedVersions(0x0304), tlsref.Opaque(0x6b6b, 60000)}
 		for _, k := range []bool{false, true} {
 			emit(kase{Family: "multi-record-hello", Desc: "plain 60 kB", Keys: k, First: tlsref.FragmentMax(0x0301, bigPlain.Msg())})
+		}
+		// a 64 kB hello in ONE-BYTE handshake records (390 kB on the wire), passed through without keys: once the backend has read
+		// it - and a few more records have flowed - the Conn holds a small multiple of the hello, not of what travelled
+		{
+			h := baseOuter()
+			h.Exts = []tlsref.Ext{tlsref.SNI(pubName), tlsref.SupportedVersions(0x0304), tlsref.Opaque(0x6b6b, 65000)}
+			msg := h.Msg()
+			var cuts []int
+			for o := 1; o < len(msg); o++ {
+				cuts = append(cuts, o)
+			}
+			// (the session driver reads 70000 bytes at a time: six reads deliver the 390 kB of records)
+			after := []op{{Dir: 'c'}, {Dir: 'c'}, {Dir: 'c'}, {Dir: 'c'}, {Dir: 'c'}, {Dir: 'c'}, {Dir: 'c', Data: tlsref.Record(23, 0x0303, make([]byte, 100))}, {Dir: 'b', Data: tlsref.Record(23, 0x0303, make([]byte, 100))}, {Dir: 'c', Data: tlsref.Record(23, 0x0303, make([]byte, 100))}}
+			emit(kase{Family: "multi-record-hello-one-byte-records-delivered", Desc: "plain 65 kB, no keys", Keys: false, First: tlsref.Fragment(0x0301, msg, cuts...), Ops: after, Budget: 16*1024 + 3*len(msg)})
 		}
 		// the same 60 kB made of 15000 EMPTY extensions: what is kept of a hello must not grow with the number of its extensions
 		manyExts := baseOuter()
@@ -427,6 +443,23 @@ func generate(thorough bool, emit func(kase)) {
 			emit(kase{Family: "retry-hello", Desc: desc, Keys: true, First: first, Ops: append(slices.Clone(pre), op{Dir: 'c', Data: rec})})
 		}
 		add("valid", tlsref.Record(22, 0x0303, msg2))
+		// a valid second hello whose OUTER hello carries 15000 empty extensions (60 kB, four records): what the Conn keeps after a
+		// retry is as bounded as what it keeps after the first hello
+		{
+			big := spec2
+			big.Outer = spec2.Outer.Clone()
+			ech := big.Outer.Exts[big.EchIdx]
+			big.Outer.Exts = big.Outer.Exts[:big.EchIdx]
+			for i := 0; i < 15000; i++ {
+				big.Outer.Exts = append(big.Outer.Exts, tlsref.Ext{Type: 0x6b6b})
+			}
+			big.EchIdx = len(big.Outer.Exts)
+			big.Outer.Exts = append(big.Outer.Exts, ech)
+			bb1 := spec2.Build()
+			bb2 := big.BuildWith(bb1.Sealer, false)
+			emit(kase{Family: "retry-hello-many-extensions", Desc: "valid, 15000 empty extensions in the outer hello", Keys: true, First: first,
+				Ops: append(slices.Clone(pre), op{Dir: 'c', Data: tlsref.FragmentMax(0x0303, bb2.Outer.Msg())}, op{Dir: 'c', Data: tlsref.Record(23, 0x0303, make([]byte, 10))})})
+		}
 		// records of every content type and of length 0/1/2 that arrive BETWEEN the HelloRetryRequest and the second hello
 		// (each read separately, then the hello), and the second hello framed with a first fragment of 0..4 bytes
 		for _, ct := range []byte{20, 21, 22, 23, 24, 0, 255} {
@@ -484,10 +517,15 @@ var curCase atomic.Int64
 var curStart atomic.Int64
 
 func heapInUse() uint64 {
-	runtime.GC()
+	// two collections: what sync.Pool kept over the first one (the victim cache) and what finalizers released is gone after
+	// the second; the smaller of the two readings is taken
 	var ms runtime.MemStats
+	runtime.GC()
 	runtime.ReadMemStats(&ms)
-	return ms.HeapAlloc
+	a := ms.HeapAlloc
+	runtime.GC()
+	runtime.ReadMemStats(&ms)
+	return min(a, ms.HeapAlloc)
 }
 
 func runCase(idx int, k kase, keys []ech.Key, measure bool) (res result) {
@@ -594,10 +632,14 @@ func runCase(idx int, k kase, keys []ech.Key, measure bool) (res result) {
 		if lim := uint64(88*moved + ((2+len(k.Ops))*12+nrec+nrec/4)*recSize); ms1.TotalAlloc-ms0.TotalAlloc > lim {
 			fail("alloc:"+k.Family, fmt.Sprintf("the calls allocated %d bytes for %d bytes of input (limit %d): the Conn builds something much larger than a record", ms1.TotalAlloc-ms0.TotalAlloc, moved, lim))
 		}
-		harness = len(sess.T.Out)*2 + 64*len(sess.T.Writes) + sess.T.Pending() + len(k.First) + sess.HarnessBytes()
+		// what the session driver and its transport hold themselves (by capacity: append rounds up)
+		harness = sess.T.HeldBytes() + len(k.First) + sess.HarnessBytes()
 		after := heapInUse()
 		// a legitimate hello may span several records (up to 64 kB): the Conn then holds the parsed hello(s) and the bytes to forward
 		budget := 16*1024 + 8*max(recSize, min(len(k.First), 65536+64))
+		if k.Budget > 0 {
+			budget = k.Budget
+		}
 		if after > before && int(after-before)-harness > budget {
 			// measure again to rule out noise: rerun the whole case
 			res.Outcome += " mem-suspect"
